@@ -50,7 +50,7 @@ def setup_imports():
             sys.path.remove(p)
         sys.path.insert(0, p)
     import warnings
-    warnings.filterwarnings('ignore', category=DeprecationWarning)
+    warnings.simplefilter('ignore')
     import logging
     logging.disable(logging.CRITICAL)
     import pamqp
@@ -144,6 +144,32 @@ class Recorder:
         except Exception:
             self.harness_errors.append(traceback.format_exc())
             raise HarnessError('classifier failed')
+        violation = None
+        info = None
+        try:
+            info = comp.check(case)
+        except Violation as v:
+            self.fail(v.bucket, case, v.message)
+            violation = v
+        except CaseTimeout:
+            raise
+        except HarnessError as e:
+            self.harness_errors.append('%s on case %s' %
+                                       (e, self.canon.short(case)))
+            raise
+        except Exception:
+            self.harness_errors.append(
+                'unexpected exception in oracle of %s on case %s\n%s' %
+                (comp.name, self.canon.short(case), traceback.format_exc()))
+            raise HarnessError('oracle crashed')
+        if info:
+            if isinstance(info, dict):
+                self.extra['sub_evaluations'] += info.get('sub_evaluations', 0)
+                if 'nontrivial' in info:   # rule decided by what the run observed
+                    nt = bool(info['nontrivial'])
+                info = info.get('labels', ())
+            for label in info:
+                self.classes[label] += 1
         if nt:
             self.nontrivial_count += 1
             if not comp.distinct_by_construction and \
@@ -153,24 +179,7 @@ class Recorder:
         if nt and (len(self.samples) < 2 or (n & (n - 1)) == 0) \
                 and len(self.samples) < 6:
             self.samples.append(sample_of(case))
-        try:
-            info = comp.check(case)
-        except Violation as v:
-            self.fail(v.bucket, case, v.message)
-            return v
-        except CaseTimeout:
-            raise
-        except HarnessError:
-            raise
-        except Exception:
-            self.harness_errors.append(
-                'unexpected exception in oracle of %s on case %s\n%s' %
-                (comp.name, self.canon.short(case), traceback.format_exc()))
-            raise HarnessError('oracle crashed')
-        if info:
-            for label in info:
-                self.classes[label] += 1
-        return None
+        return violation
 
     # -- bulk path ---------------------------------------------------------------
     def count(self, evaluations, nontrivial, label=None):
@@ -205,6 +214,7 @@ class Recorder:
             'samples': self.samples,
             'failures': self.failures,
             'harness_errors': self.harness_errors,
+            'extra': dict(self.extra),
         }
 
 
@@ -259,7 +269,7 @@ def run_task(args):
     except BaseException:
         return {'component': '%s[%d]' % (modname, comp_idx), 'evaluations': 0,
                 'nontrivial_count': 0, 'digests': set(), 'classes': {},
-                'samples': [], 'failures': {},
+                'samples': [], 'failures': {}, 'extra': {},
                 'harness_errors': [traceback.format_exc()]}
 
 
@@ -410,6 +420,7 @@ def main(argv=None):
     for comp in mod.COMPONENTS:
         per[comp.name] = {'evaluations': 0, 'nontrivial': 0, 'digests': set(),
                           'classes': collections.Counter(), 'samples': [],
+                          'sub_evaluations': 0, 'exhaustive': comp.exhaustive,
                           'kind': comp.kind, 'describe': comp.describe}
     failures = {}
     herr = []
@@ -422,6 +433,7 @@ def main(argv=None):
         p['nontrivial'] += r['nontrivial_count']
         p['digests'] |= r['digests']
         p['classes'].update(r['classes'])
+        p['sub_evaluations'] += r.get('extra', {}).get('sub_evaluations', 0)
         if len(p['samples']) < 4:
             p['samples'].extend(r['samples'][:2])
         for b, f in r['failures'].items():
@@ -480,8 +492,12 @@ def main(argv=None):
                            'evaluations': p['evaluations'],
                            'nontrivial': p['nontrivial'],
                            'distinct_nontrivial': p['distinct_nontrivial'],
+                           'sub_evaluations': p['sub_evaluations'],
+                           'exhaustive': p['exhaustive'],
                            'classes': dict(sorted(p['classes'].items()))}
                     for name, p in per.items()},
+                'sub_evaluations': sum(p['sub_evaluations']
+                                       for p in per.values()),
                 'excluded_known': excluded_known,
                 'harness_errors': len(herr),
                 'repo': REPO,
